@@ -303,7 +303,7 @@ func (r *c18run) runRowGroupWriters(res *Written) {
 	rows := r.data.Rows()
 	cursor := 0
 	for _, op := range r.sc.Plan.Ops {
-		if op.Op != "write" || op.N == 0 {
+		if (op.Op != "write" && op.Op != "sortedrg") || op.N == 0 {
 			continue
 		}
 		hi := min(cursor+op.N, len(rows))
